@@ -937,7 +937,9 @@ func ruleMissingPredicate(rule string) RuleFn {
 				// the same walk as paramSingle.Build uses: (paramSingle).getDecoratedValue(c) looks through storesToRoot()
 				return regexp.MustCompile(`^!.*\.\(dig\.paramSingle\)#0\.getDecoratedValue\(p:c\)#1$`).MatchString(f.S)
 			}},
-			{"not optional", func(f an.Fact) bool { return regexp.MustCompile(`^!.*\.\(dig\.paramSingle\)#0\.Optional$`).MatchString(f.S) }},
+			{"not optional", func(f an.Fact) bool {
+				return regexp.MustCompile(`^!.*\.\(dig\.paramSingle\)#0\.Optional$`).MatchString(f.S)
+			}},
 		}
 		all := an.NewGates()
 		for _, cd := range conds {
@@ -1117,9 +1119,11 @@ func boundedMissingDeps(h *ssa.Function) bool {
 	}
 	hit := an.BoolEdges(h, func(v ssa.Value) bool { return isTA(v, "errMissingDependencies") }, true)
 	stop := an.BoolEdges(h, func(v ssa.Value) bool { return isTA(v, "errConstructorFailed") }, true)
-	if len(hit) == 0 || len(stop) == 0 {
+	stopD := an.BoolEdges(h, func(v ssa.Value) bool { return isTA(v, "errDecoratorFailed") }, true)
+	if len(hit) == 0 || len(stop) == 0 || len(stopD) == 0 {
 		return false
 	}
+	stop = append(stop, stopD...)
 	ok := true
 	an.Instrs(h, func(in ssa.Instruction) {
 		r, isR := in.(*ssa.Return)
